@@ -41,6 +41,181 @@ type AgentReal struct {
 	Err      string `json:"err"`
 	Hung     bool   `json:"hung"`
 	Infra    string `json:"infra,omitempty"`
+	// the other kinds of case ("yamlpre", "retryrun"): per step its final state / retry count, and whether its command ran
+	Kind  string          `json:"kind,omitempty"`
+	Nodes map[string]NObs `json:"nodes,omitempty"`
+	Ran   map[string]bool `json:"ran,omitempty"`
+	More  int             `json:"more,omitempty"`  // retryrun: the step fails this many more times in the retry run
+	Run1  map[string]NObs `json:"run1,omitempty"`  // retryrun: the recorded run
+	Runs1 int             `json:"runs1,omitempty"` // retryrun: executions of s1 in the recorded run
+}
+
+type NObs struct {
+	St string `json:"st"`
+	Rc int    `json:"rc"`
+}
+
+// newAgent loads the YAML file through dag.Load (the real start path) and builds the agent over a scratch data directory
+func newAgent(dir, name, reqID string, opts *agent.Options) (*agent.Agent, error) {
+	file := filepath.Join(dir, "dags", name+".yaml")
+	wf, err := dag.Load("", file, "")
+	if err != nil {
+		return nil, fmt.Errorf("load: %w", err)
+	}
+	wf.LogDir = filepath.Join(dir, "logs")
+	ds := dsclient.NewDataStores(filepath.Join(dir, "dags"), filepath.Join(dir, "data"), filepath.Join(dir, "suspend"), dsclient.DataStoreOptions{})
+	cli := client.New(ds, "", dir, quietLogger)
+	return agent.New(reqID, wf, quietLogger, filepath.Join(dir, "logs"), filepath.Join(dir, "logs", "agent.log"), cli, ds, opts), nil
+}
+
+func runToEnd(agt *agent.Agent, res *AgentReal) bool {
+	done := make(chan error, 1)
+	go func() { done <- agt.Run(context.Background()) }()
+	select {
+	case err := <-done:
+		if err != nil {
+			res.Err = err.Error()
+		}
+		return true
+	case <-time.After(40 * time.Second):
+		res.Hung = true
+		return false
+	}
+}
+
+func observe(agt *agent.Agent) map[string]NObs {
+	out := map[string]NObs{}
+	for _, n := range agt.Status().Nodes {
+		out[n.Step.Name] = NObs{St: n.Status.String(), Rc: n.RetryCount}
+	}
+	return out
+}
+
+// A DAG loaded from YAML whose step preconditions refer to the output variable of an upstream step (a value that exists
+// only at run time): produce (echo go -> $VAR); met (condition "$VAR" expected "go") with child met-child; unmet
+// (condition "${VAR}" expected "", unmet because VAR = go) with child unmet-child.  Each step touches a marker.
+func runYamlPre(work string, k int) AgentReal {
+	res := AgentReal{Class: "agentreal", Kind: "yamlpre", Sub: "yamlpre", K: k}
+	dir := filepath.Join(work, fmt.Sprintf("ar-%d", k))
+	for _, d := range []string{"dags", "data", "logs", "suspend"} {
+		_ = os.MkdirAll(filepath.Join(dir, d), 0o755)
+	}
+	v := fmt.Sprintf("VERIF_YP_%d_%d", os.Getpid(), k)
+	os.Unsetenv(v)
+	defer os.Unsetenv(v)
+	mk := func(n string) string { return filepath.Join(dir, "ran-"+n) }
+	name := fmt.Sprintf("ar%d", k)
+	yaml := fmt.Sprintf(`name: %[1]s
+steps:
+  - name: produce
+    command: echo go
+    output: %[2]s
+  - name: met
+    command: touch %[3]s
+    depends:
+      - produce
+    preconditions:
+      - condition: "$%[2]s"
+        expected: "go"
+  - name: met-child
+    command: touch %[4]s
+    depends:
+      - met
+  - name: unmet
+    command: touch %[5]s
+    depends:
+      - produce
+    preconditions:
+      - condition: "${%[2]s}"
+        expected: ""
+  - name: unmet-child
+    command: touch %[6]s
+    depends:
+      - unmet
+`, name, v, mk("met"), mk("met-child"), mk("unmet"), mk("unmet-child"))
+	if err := os.WriteFile(filepath.Join(dir, "dags", name+".yaml"), []byte(yaml), 0o644); err != nil {
+		res.Infra = err.Error()
+		return res
+	}
+	agt, err := newAgent(dir, name, fmt.Sprintf("req-yp-%d", k), &agent.Options{})
+	if err != nil {
+		res.Infra = err.Error()
+		return res
+	}
+	if !runToEnd(agt, &res) {
+		return res
+	}
+	res.Status = agt.Status().Status.String()
+	res.Nodes = observe(agt)
+	res.Ran = map[string]bool{}
+	for _, n := range []string{"met", "met-child", "unmet", "unmet-child"} {
+		_, err := os.Stat(mk(n))
+		res.Ran[n] = err == nil
+	}
+	return res
+}
+
+// A recorded run plus its retry run: s1 (script, retryPolicy limit L) fails every attempt of run 1 (L+1 executions,
+// retry count L, s2 canceled); in the retry run it fails `more` more times (more <= L) and then succeeds: the budget is
+// per run - s1 ends finished with retry count `more`, s2 executes.
+func runRetryRun(work string, k, limit, more int) AgentReal {
+	res := AgentReal{Class: "agentreal", Kind: "retryrun", Sub: fmt.Sprintf("retryrun-l%d-m%d", limit, more), K: k, Limit: limit, More: more}
+	dir := filepath.Join(work, fmt.Sprintf("ar-%d", k))
+	for _, d := range []string{"dags", "data", "logs", "suspend"} {
+		_ = os.MkdirAll(filepath.Join(dir, d), 0o755)
+	}
+	counter := filepath.Join(dir, "counter")
+	marker := filepath.Join(dir, "dep-ran")
+	failUntil := limit + 1 + more
+	lines := []string{
+		fmt.Sprintf("n=$(cat %s 2>/dev/null || echo 0)", counter),
+		"n=$((n+1))",
+		fmt.Sprintf("echo $n > %s", counter),
+		fmt.Sprintf("if [ $n -le %d ]; then exit 1; fi", failUntil),
+		"exit 0",
+	}
+	name := fmt.Sprintf("ar%d", k)
+	yaml := fmt.Sprintf("name: %s\nsteps:\n  - name: s1\n    command: sh\n    script: |\n      %s\n    retryPolicy:\n      limit: %d\n      intervalSec: 0\n  - name: s2\n    command: touch %s\n    depends:\n      - s1\n",
+		name, strings.Join(lines, "\n      "), limit, marker)
+	if err := os.WriteFile(filepath.Join(dir, "dags", name+".yaml"), []byte(yaml), 0o644); err != nil {
+		res.Infra = err.Error()
+		return res
+	}
+	a1, err := newAgent(dir, name, fmt.Sprintf("req-rr1-%d", k), &agent.Options{})
+	if err != nil {
+		res.Infra = err.Error()
+		return res
+	}
+	if !runToEnd(a1, &res) {
+		return res
+	}
+	res.Run1 = observe(a1)
+	if b, err := os.ReadFile(counter); err == nil {
+		fmt.Sscanf(strings.TrimSpace(string(b)), "%d", &res.Runs1)
+	}
+	if res.Run1["s1"].St != "failed" || res.Runs1 != limit+1 {
+		res.Infra = fmt.Sprintf("the recorded run is not the intended one: s1 %v after %d execution(s)", res.Run1["s1"], res.Runs1)
+		return res
+	}
+	res.Err = ""
+	a2, err := newAgent(dir, name, fmt.Sprintf("req-rr2-%d", k), &agent.Options{RetryTarget: a1.Status()})
+	if err != nil {
+		res.Infra = err.Error()
+		return res
+	}
+	if !runToEnd(a2, &res) {
+		return res
+	}
+	res.Status = a2.Status().Status.String()
+	res.Nodes = observe(a2)
+	total := 0
+	if b, err := os.ReadFile(counter); err == nil {
+		fmt.Sscanf(strings.TrimSpace(string(b)), "%d", &total)
+	}
+	res.Attempts = total - res.Runs1
+	_, serr := os.Stat(marker)
+	res.Ran = map[string]bool{"s2": serr == nil}
+	return res
 }
 
 func runAgentReal(work string, k int, script bool, fails, limit int) AgentReal {
@@ -144,7 +319,25 @@ func agentRealMain(outPath, work string) {
 			res[k] = runAgentReal(work, k, j.script, j.fails, j.lim)
 		}(k, j)
 	}
+	// DAGs loaded from YAML with preconditions on an upstream step's output variable; recorded run + retry run
+	extra := []func(k int) AgentReal{
+		func(k int) AgentReal { return runYamlPre(work, k) },
+		func(k int) AgentReal { return runYamlPre(work, k) },
+		func(k int) AgentReal { return runRetryRun(work, k, 1, 1) },
+		func(k int) AgentReal { return runRetryRun(work, k, 2, 1) },
+		func(k int) AgentReal { return runRetryRun(work, k, 2, 2) },
+		func(k int) AgentReal { return runRetryRun(work, k, 1, 0) },
+	}
+	xres := make([]AgentReal, len(extra))
+	for x, f := range extra {
+		wg.Add(1)
+		go func(x int, f func(int) AgentReal) {
+			defer wg.Done()
+			xres[x] = f(len(jobs) + x)
+		}(x, f)
+	}
 	wg.Wait()
+	res = append(res, xres...)
 	for _, r := range res {
 		out.Put(r)
 	}
